@@ -65,6 +65,8 @@ class SnarkjsProve(_Backend):
             dict(npub=0, npriv=0, cons=[]),
             dict(npub=1, npriv=1, cons=[[(0,), (-1,), (1,)]]),
             dict(npub=1, npriv=2, cons=[[(-1, 1, 0), (-2,), (1, 0)], [(), (), (-1, -2)]]),      # A, B, C with 3, 1, 2 terms: the counts are not interchangeable
+            dict(npub=1, npriv=1, cons=[[(), (), ()], [(0,), (-1,), (1,)]]),                      # a row without a single term (0*0=0) is still a row
+            dict(npub=2, npriv=0, cons=[[(), (), (1, 2, 0)]]),                                    # no private value at all
         ]
         if tier != "quick":
             shapes.append(dict(npub=2, npriv=3, cons=[[(-1, 1), (-2,), (-3, 2, 0)], [(0,), (-3,), (2,)], [(), (-1,), ()]]))
